@@ -1686,6 +1686,7 @@ class sptensor:
             old_modes = np.arange(0, self.ndims, dtype=int)
             keep_modes = np.array([], dtype=int)
         else:
+            old_modes = parse_one_d(old_modes)
             keep_modes = np.setdiff1d(np.arange(0, self.ndims, dtype=int), old_modes)
 
         shapeArray = np.array(self.shape)
